@@ -1,5 +1,6 @@
 import PelModel.Cli
 import PelProofs.CliDir
+import PelProofs.Top
 /-
   C09 — Unreadable files in a PEL directory never disturb the output for the others.
   In the model the section decoders are readers `Rd α = StateT Bytes (Except Err) α`: they have no way to write to
@@ -171,5 +172,88 @@ theorem hex_is_dump_sequence (env : Env) (o : CliOpts) (d : Dir) (hhex : o.hex =
   | some x => simp only [hs, Option.some.injEq] at hq; rw [← hq]; exact hmem
   | skip => simp [hs] at hq
   | diag => simp [hs] at hq
+
+/-! ### the WHOLE command: `runMain` = `dispatch` followed by the mode it names, on a `World` (model: PelModel/Top.lean) -/
+
+/-- "`j` is a file the mode this command line reaches cannot decode": the hypothesis of the per-mode theorem of that mode, for the `Config`
+    `main()` built (`-l`: `list_noninterference`, `-a`: `all_…`, `-n`: `count_…`, `--plid`: `plid_…`, `--src` / `--src-exclude`: `src_…`);
+    no other mode is covered -/
+def JunkFor (env : Env) (sel : SelCfg) (j : FileEntry) : Action → Prop
+  | .listMode _ => junkForSummary env sel j
+  | .allMode _ => junkForFull env sel j
+  | .countMode _ => junkForCount env sel j
+  | .plidMode _ _ | .srcMode _ _ | .srcExcludeMode _ _ => junkForSummary env { sel with lookup := true } j
+  | _ => False
+
+/-- ★ adding an undecodable file `j` anywhere in the `-p` directory (any walk position) changes neither what the WHOLE command prints nor its
+    exit status, for every command line that reaches `-l`, `-a`, `-n`, `--plid`, `--src` or `--src-exclude` — whatever else is on the command
+    line (selection switches, `-r`, `-e`, `-x`, lower-priority options) and whatever the rest of the world is; nothing in the world changes
+    either.  Hypotheses as in the per-mode theorems: distinct names, `j` undecodable for that mode. -/
+theorem command_junk_noninterference (env : Env) (a : Args) (w : World) (d1 d2 : Dir) (j : FileEntry)
+    (hw : w.dir = withJunk d1 j d2) (hd : distinctNames (withJunk d1 j d2))
+    (hj : JunkFor (env.withCfg (dispatch (w.fsView a) a).2) (dispatch (w.fsView a) a).2.sel j (dispatch (w.fsView a) a).1) :
+    (runMain env a w).stdout = (runMain env a { w with dir := d1 ++ d2 }).stdout ∧
+    (runMain env a w).exit = (runMain env a { w with dir := d1 ++ d2 }).exit ∧
+    (runMain env a w).world = w := by
+  unfold runMain runMainF
+  simp only [fsView_dir]
+  generalize (dispatch (w.fsView a) a).2 = c at hj ⊢
+  generalize (dispatch (w.fsView a) a).1 = act at hj ⊢
+  cases act <;> simp only [JunkFor] at hj <;> simp only [runAction, ofCli, hw]
+  case listMode p =>
+    obtain ⟨h1, _, _⟩ := list_noninterference (env.withCfg c) c.opts d1 d2 j hd hj
+    exact ⟨h1, rfl, trivial⟩
+  case allMode p =>
+    obtain ⟨h1, _⟩ := all_noninterference (env.withCfg c) c.opts d1 d2 j hd hj
+    exact ⟨h1, rfl, trivial⟩
+  case countMode p =>
+    obtain ⟨h1, _⟩ := count_noninterference (env.withCfg c) c.opts d1 d2 j hd hj
+    exact ⟨h1, rfl, trivial⟩
+  case plidMode p x =>
+    obtain ⟨h1, h2⟩ := plid_noninterference (env.withCfg c) c.opts x d1 d2 j hd hj
+    exact ⟨h1, h2, trivial⟩
+  case srcMode p sv =>
+    obtain ⟨h1, h2⟩ := src_noninterference (env.withCfg c) c.opts (some sv) none d1 d2 j hd hj
+    exact ⟨h1, h2, trivial⟩
+  case srcExcludeMode p f =>
+    obtain ⟨h1, h2⟩ := src_noninterference (env.withCfg c) c.opts none (some (w.exclude.getD [])) d1 d2 j hd hj
+    exact ⟨h1, h2, trivial⟩
+
+/-- by induction: any number of undecodable files, appended in any order (each one junk for the mode reached) -/
+theorem command_junk_list (env : Env) (a : Args) (w : World) (junk : List FileEntry)
+    (hd : distinctNames (junk ++ w.dir))
+    (hj : ∀ j ∈ junk, JunkFor (env.withCfg (dispatch (w.fsView a) a).2) (dispatch (w.fsView a) a).2.sel j (dispatch (w.fsView a) a).1) :
+    (runMain env a { w with dir := junk ++ w.dir }).stdout = (runMain env a w).stdout ∧
+    (runMain env a { w with dir := junk ++ w.dir }).exit = (runMain env a w).exit := by
+  induction junk with
+  | nil => exact ⟨rfl, rfl⟩
+  | cons j js ih =>
+    have hd' : distinctNames (js ++ w.dir) := by
+      unfold distinctNames at hd ⊢
+      simp only [List.cons_append, List.map_cons, List.nodup_cons] at hd
+      exact hd.2
+    obtain ⟨i1, i2⟩ := ih hd' (fun x hx => hj x (List.mem_cons_of_mem _ hx))
+    have key := command_junk_noninterference env a { w with dir := j :: js ++ w.dir } [] (js ++ w.dir) j rfl hd
+      (hj j (List.mem_cons_self ..))
+    simp only [List.nil_append] at key
+    exact ⟨key.1.trans i1, key.2.1.trans i2⟩
+
+/-! Non-vacuity: the empty file is junk for every decoder and every `Config`; `-p /pels -l` in `wDemo` with it and without it. -/
+example (env : Env) (cfg : SelCfg) (n : Text) :
+    junkForSummary env cfg { name := n, data := [] } ∧ junkForFull env cfg { name := n, data := [] } ∧
+    junkForCount env cfg { name := n, data := [] } :=
+  ⟨fun _ h => (nomatch h), fun _ h => (nomatch h), fun h => (nomatch h)⟩
+example : (runMain envDemo { path := some (s "/pels"), list := true } wDemo).stdout =
+    (runMain envDemo { path := some (s "/pels"), list := true } { wDemo with dir := [{ name := s "x_50000001", data := [1, 2, 3] }] }).stdout :=
+  (command_junk_noninterference envDemo { path := some (s "/pels"), list := true } wDemo [] [{ name := s "x_50000001", data := [1, 2, 3] }]
+    { name := s "junk", data := [] } rfl (by unfold distinctNames withJunk; decide) (fun _ h => (nomatch h))).1
+
+-- with real PELs: `wPels` holds a two-byte file between two PELs; without it every mode prints the same and exits the same
+example : (runMain envDemo { path := some (s "/pels"), all := true, every := true } wPels).stdout =
+      (runMain envDemo { path := some (s "/pels"), all := true, every := true }
+        { wPels with dir := [{ name := s "b_50000002", data := pelHiddenDemo }, { name := s "a_50000001", data := pelDemo }] }).stdout ∧
+    (runMain envDemo { path := some (s "/pels"), all := true, every := true } wPels).diagnostics = 1 ∧
+    (runMain envDemo { path := some (s "/pels"), count := true, every := true } wPels).stdout = s "{\n    \"Number of PELs found\": 2\n}\n" := by
+  decide +kernel
 
 end Pel.C09
